@@ -5,6 +5,7 @@ import (
 	"fmt"
 	"io"
 	"math"
+	"os"
 
 	"github.com/openacid/low/iohelper"
 
@@ -153,6 +154,7 @@ type c18Mon struct {
 	hist   []string
 	trans  map[uint64]struct{}
 	atw    bool
+	file   *os.File // set: the section writer writes to this real file, not to dev
 }
 
 func (c *c18Mon) detail(extra mon.D) mon.D {
@@ -183,7 +185,42 @@ func (c *c18Mon) begin() {
 
 // effects compares what reached the device during this op with the model's expectation:
 // bytes exp written at absolute position start.
+// fileMatches: the whole file equals the model image (zero wherever the model holds nothing).
+func (c *c18Mon) fileMatches(op string) bool {
+	got, err := os.ReadFile(c.file.Name())
+	if err != nil {
+		c.w.Harness("c18/readback", mon.D{"err": err.Error()})
+		return false
+	}
+	for p, b := range got {
+		if e := c.image[int64(p)]; e != b {
+			c.w.Fail(op+"/file-content-differs", c.detail(mon.D{"underlying": "*os.File", "pos": p, "got": b, "expected": e, "file_len": len(got)}))
+			return false
+		}
+	}
+	for p, b := range c.image {
+		if b != 0 && p >= int64(len(got)) {
+			c.w.Fail(op+"/file-content-differs", c.detail(mon.D{"underlying": "*os.File", "pos": p, "expected": b, "file_len": len(got), "what": "byte missing from the file"}))
+			return false
+		}
+	}
+	return true
+}
+
+func (c *c18Mon) cleanup() {
+	if c != nil && c.file != nil {
+		c.file.Close()
+		os.Remove(c.file.Name())
+	}
+}
+
 func (c *c18Mon) effects(op string, start int64, exp []byte) bool {
+	if c.file != nil {
+		for i, b := range exp {
+			c.image[start+int64(i)] = b
+		}
+		return c.fileMatches(op)
+	}
 	// containment first: any byte offered outside [base, base+n)
 	if c.dev.touched && (c.dev.lo < c.base || c.dev.hi > c.limit) {
 		c.w.Fail("containment/"+op, c.detail(mon.D{"offered_range": []int64{c.dev.lo, c.dev.hi}, "section": []int64{c.base, c.limit}}))
@@ -434,6 +471,9 @@ func (c *c18Mon) observe() bool {
 
 // final compares the whole device image with the model's.
 func (c *c18Mon) final() bool {
+	if c.file != nil {
+		return c.fileMatches("final")
+	}
 	if len(c.dev.image) != len(c.image) {
 		c.w.Fail("final-image-differs", c.detail(mon.D{"device_bytes": len(c.dev.image), "model_bytes": len(c.image)}))
 		return false
@@ -453,18 +493,19 @@ var c18Lens = []int64{0, 1, 2, 8, 29}
 type c18Plan struct {
 	base, n int64
 	fault   c18Fault
+	osfile  bool // the underlying io.WriterAt is a real *os.File (no injected faults; effects are read back from the file)
 }
 
 func c18Plans() []c18Plan {
 	var out []c18Plan
 	for _, b := range c18Bases {
 		for _, n := range c18Lens {
-			out = append(out, c18Plan{b, n, c18Fault{}})
+			out = append(out, c18Plan{base: b, n: n})
 			for f := b - 1; f <= b+n+1; f++ {
-				out = append(out, c18Plan{b, n, c18Fault{kind: 1, at: f}}, c18Plan{b, n, c18Fault{kind: 1, at: f, whole: true}}, c18Plan{b, n, c18Fault{kind: 1, at: f, late: true}})
+				out = append(out, c18Plan{base: b, n: n, fault: c18Fault{kind: 1, at: f}}, c18Plan{base: b, n: n, fault: c18Fault{kind: 1, at: f, whole: true}}, c18Plan{base: b, n: n, fault: c18Fault{kind: 1, at: f, late: true}})
 			}
 			for q := int64(0); q <= n+1; q++ {
-				out = append(out, c18Plan{b, n, c18Fault{kind: 2, at: q, whole: q&1 == 1}}, c18Plan{b, n, c18Fault{kind: 2, at: q, late: true}})
+				out = append(out, c18Plan{base: b, n: n, fault: c18Fault{kind: 2, at: q, whole: q&1 == 1}}, c18Plan{base: b, n: n, fault: c18Fault{kind: 2, at: q, late: true}})
 			}
 		}
 	}
@@ -484,13 +525,16 @@ func init() {
 		Flavours: releaseThenGo126,
 		Required: []string{"write/inside", "write/last-byte", "write/at-end", "write/beyond-end", "write/truncated", "write/empty-buffer", "writeat/at-or-beyond-end", "writeat/truncated", "writeat/ends-exactly-at-limit",
 			"writeat/negative-offset", "seek/whence=0", "seek/whence=1", "seek/whence=2", "seek/invalid-whence", "seek/before-start", "seek/beyond-end", "fault/hit-in-Write", "fault/hit-in-WriteAt", "fault/late-error-style",
-			"section/n=0", "attowriter", "write-after-seek", "write-after-partial-write", "section/ends-at-MaxInt64", "writeat/offset=MaxInt64"},
+			"section/n=0", "attowriter", "write-after-seek", "write-after-partial-write", "section/ends-at-MaxInt64", "writeat/offset=MaxInt64", "underlying/*os.File"},
 		Families: func(c *mon.Config) []mon.Family {
 			reps := c.Pick(80, 12000)
 			return []mon.Family{
 				{Name: "enumerated-faults", Env: 4, N: len(plans) * reps, Run: func(w *mon.W, idx int) { c18History(w, plans[idx%len(plans)], idx) }},
 				{Name: "large-sections", Env: 6, N: c.Pick(10000, 1500000), Run: c18Large},
 				{Name: "at-to-writer", Env: 4, N: c.Pick(6000, 600000), Run: c18AtToWriter},
+				{Name: "os-file", Env: 2, N: c.Pick(400, 40000), Run: func(w *mon.W, idx int) {
+					c18History(w, c18Plan{base: int64(w.Rng.Pick(0, 1, 7, 1000, 4096)), n: int64(w.Rng.Pick(0, 1, 8, 29, 100, 1000, 5000)), osfile: true}, idx)
+				}},
 				{Name: "near-maxint64", N: c.Pick(3000, 300000), Run: c18NearMax},
 			}
 		},
@@ -500,6 +544,15 @@ func init() {
 func c18NewMon(w *mon.W, p c18Plan) *c18Mon {
 	dev := &c18Dev{fault: p.fault, image: map[int64]byte{}}
 	w.Op, w.A, w.B = "NewSectionWriter", p.base, p.n
+	if p.osfile {
+		f, err := os.CreateTemp(w.Cfg.WorkDir, "c18-section-*.bin")
+		if err != nil {
+			w.Harness("c18/tempfile", mon.D{"err": err.Error()})
+			return nil
+		}
+		return &c18Mon{w: w, sw: iohelper.NewSectionWriter(f, p.base, p.n), dev: &c18Dev{image: map[int64]byte{}}, file: f, base: p.base, n: p.n, limit: p.base + p.n, cursor: p.base,
+			image: map[int64]byte{}, trans: map[uint64]struct{}{}}
+	}
 	return &c18Mon{w: w, sw: iohelper.NewSectionWriter(dev, p.base, p.n), dev: dev, base: p.base, n: p.n, limit: p.base + p.n, cursor: p.base,
 		image: map[int64]byte{}, trans: map[uint64]struct{}{}}
 }
@@ -519,6 +572,13 @@ func (c *c18Mon) finish(w *mon.W, h uint64) {
 func c18History(w *mon.W, p c18Plan, idx int) {
 	r := w.Rng
 	c := c18NewMon(w, p)
+	if c == nil {
+		return
+	}
+	defer c.cleanup()
+	if p.osfile {
+		w.Bucket("underlying/*os.File")
+	}
 	if p.n == 0 {
 		w.Bucket("section/n=0")
 	}
